@@ -69,11 +69,11 @@ func WorkerMain(env *Env, eng Engine) int {
 		if v == nil {
 			continue
 		}
-		if env.Known[v.Signature] {
-			k := known[v.Signature]
+		if pat, ok := env.IsKnown(v.Signature); ok {
+			k := known[pat]
 			if k == nil {
-				k = &KnownHit{Signature: v.Signature, Message: v.Message, Case: v.Case}
-				known[v.Signature] = k
+				k = &KnownHit{Signature: pat, Message: v.Signature + ": " + v.Message, Case: v.Case}
+				known[pat] = k
 			}
 			k.Count++
 			continue
